@@ -67,9 +67,14 @@ def install_fs(fc_module, fs, vtime=None):
     # the store layer above the cache does no file-system work of its own today; should it start to (a clean-up pass
     # on open, a marker file, ...), that work must meet the same simulated disk
     import sys
-    for name in ("klongpy.db.sys_fn_kvs", "klongpy.db.df_cache"):
-        mod = sys.modules.get(name)
-        if mod is not None:
+    import importlib
+    try:
+        importlib.import_module("klongpy.db.helpers")
+    except Exception:
+        pass
+    for name, mod in list(sys.modules.items()):
+        # every module of the store layer (also helper modules a change may start to do file work in)
+        if name.startswith("klongpy.db.") and mod is not None and mod is not fc_module:
             mod.os = fs.os
             mod.open = fs.open
 
